@@ -22,7 +22,7 @@ def _do_crypt(name, defs, extra=None):
          "replace_calls": ["check_badsalt_chars:check_badsalt_chars_stub", "get_hashfn:get_hashfn_stub"],
          "restub": {"remove": ["get_internal"], "src": ["contracts/get_internal_stub.c"]},
          "allow_no_body": ["gensalt_", "get_random_bytes", "make_failure_token"],
-         "unwind": 20, "bounds": {"SPAN": 64, "STR": 32},
+         "unwind": 20, "bounds": {"SPAN": 64, "STR": 32, "SPANEXACT": 24},
          "mem_gb": 3, "timeout": 400}
     j.update(extra or {})
     return j
@@ -38,7 +38,7 @@ def _unit(name, define, props, functions, extra=None):
          "harness": "harness/crypt_units.c", "defs": [define + "=1"],
          "verif_src": ["models/strings.c"],
          "allow_no_body": ["gensalt_", "crypt_", "get_random_bytes", "make_failure_token"],
-         "unwind": 20, "bounds": {"SPAN": 64, "STR": 32}, "mem_gb": 2, "timeout": 300}
+         "unwind": 20, "bounds": {"SPAN": 64, "STR": 32, "SPANEXACT": 24}, "mem_gb": 2, "timeout": 300}
     j.update(extra or {})
     return j
 
@@ -61,7 +61,7 @@ def _api(name, define, props, functions, extra=None):
          "replace_calls": ["do_crypt:do_crypt_stub", "check_badsalt_chars:check_badsalt_chars_stub",
                            "get_hashfn:get_hashfn_stub"],
          "allow_no_body": ["gensalt_", "crypt_", "get_random_bytes"],
-         "unwind": 20, "bounds": {"SPAN": 64, "STR": 32}, "mem_gb": 4, "timeout": 400}
+         "unwind": 20, "bounds": {"SPAN": 64, "STR": 32, "SPANEXACT": 24}, "mem_gb": 4, "timeout": 400}
     j.update(extra or {})
     return j
 
